@@ -5,7 +5,7 @@
          | (6 (v ...)) list | (7 B class ((B field v) ...)) record
    res:  (0 x) Ok | (1 code) Err                                                              *)
 From Coq Require Import Ascii.
-From YV Require Import Common.Tac Common.Sx C10.C10Model C10.C10Payload Gen.C10Table.
+From YV Require Import Common.Tac Common.Sx C10.C10Model C10.C10Payload C10.C10Edit Gen.C10Table.
 
 Definition str_of_bytes (l : list N) : name :=
   fold_right (fun n s => NC (ascii_of_N n) s) NE l.
@@ -112,3 +112,14 @@ Definition run_pread (arg : sx) : sx :=
 
 (* the check the payload theorems are instantiated under *)
 Definition run_table_ok (arg : sx) : sx := sx_bool (table_ok table).
+
+(* ---------- edit after parse (C10Edit) ---------- *)
+(* (B conv  val  (((B f ...) val) ...)) -> (edited-object  in-domain  res-roundtrip) :
+   the assignments applied in order with set_path, then the model's round trip of the result *)
+Definition run_edit (arg : sx) : sx :=
+  let cn := conv_arg arg in
+  let a := val_of_sx (sx_nth arg 1) in
+  let edits := map (fun e => (map (fun s => str_of_bytes (sx_get_b s)) (sx_get_l (sx_nth e 0)),
+                              val_of_sx (sx_nth e 1))) (sx_get_l (sx_nth arg 2)) in
+  let a' := set_paths edits a in
+  SL [sx_of_val a'; sx_bool (in_domain_f fuel table cn a'); sx_of_res sx_of_val (roundtrip_f fuel table cn a')].
